@@ -335,6 +335,37 @@ static void change_count_case(uint64_t idx, const vh_cipher *c, vh_rng *r)
     }
 }
 
+/* model mode, fork: a CTR object keyed and part-way through a stream in one process continues in a forked child (pre-forked
+   workers); child and parent must both continue with the reference stream */
+#include <sys/wait.h>
+#include <unistd.h>
+static void fork_case(uint64_t idx, const vh_cipher *c, vh_rng *r)
+{
+    int be, nbe = maxbe[c->id] + 1; uint8_t key[48], ctr[16], z[200], want[400], got[200]; unsigned pre = 1 + vh_below(r, 150);
+    vh_rand_bytes(r, key, 48); vh_rand_bytes(r, ctr, 16); memset(z, 0, sizeof(z));
+    for (be = 0; be < nbe; ++be) {
+        vh_handle h, f; pid_t pid; int st = 0, okp; char pfx[160];
+        memset(&h, 0, sizeof(h)); memset(&f, 0, sizeof(f)); vh_set_cap(be);
+        snprintf(pfx, sizeof(pfx), "%s:%s:%s:used-in-a-forked-child", prop, c->name, vh_backend_names[be]); vh_set_crash_key(pfx);
+        /* reference: one object, one call, never forked (the model comparison of the other cases ties this to the specification) */
+        c->ctr_init(&f); c->ctr_set_key(&f, key, 16, 7); c->ctr_set_counter(&f, ctr, c->bb); c->ctr_encrypt(want, z, pre, &f); c->ctr_encrypt(want + pre, z, 200, &f); c->ctr_cleanup(&f);
+        c->ctr_init(&h); c->ctr_set_key(&h, key, 16, 7); c->ctr_set_counter(&h, ctr, c->bb); c->ctr_encrypt(got, z, pre, &h);
+        fflush(stdout);
+        pid = fork();
+        if (pid == 0) { int ok = c->ctr_encrypt(got, z, 200, &h) && !memcmp(got, want + pre, 200); c->ctr_cleanup(&h); _exit(ok ? 0 : 1); }
+        if (pid > 0) waitpid(pid, &st, 0);
+        okp = c->ctr_encrypt(got, z, 200, &h) && !memcmp(got, want + pre, 200);
+        c->ctr_cleanup(&h);
+        VH_COUNT("objects_used_in_a_forked_child", 1);
+        if (pid > 0 && (!WIFEXITED(st) || WEXITSTATUS(st) != 0 || !okp)) {
+            char key_[240], d[200];
+            snprintf(key_, sizeof(key_), "%s:%s:%s:used-in-a-forked-child:%s", prop, c->name, vh_backend_names[be], okp ? "child-stream-differs" : "parent-stream-differs-after-fork");
+            snprintf(d, sizeof(d), "{\"child_status\":%d,\"driver\":\"drv_ctr\",\"mode\":\"model\",\"case\":%llu}", st, (unsigned long long)idx);
+            vh_violation(key_, d, d);
+        }
+    }
+}
+
 static void one_case(uint64_t idx)
 {
     vh_rng r;
@@ -353,6 +384,7 @@ static void one_case(uint64_t idx)
     }
     if (!strcmp(vh_arg_mode, "xbe") && idx % 40 == 17) { long_stream_rekey(idx, c, &r); return; }
     if (!strcmp(vh_arg_mode, "xbe") && idx % 40 == 23) { change_count_case(idx, c, &r); return; }
+    if (!strcmp(vh_arg_mode, "model") && idx >= nstruct && idx % 40 == 33) { fork_case(idx, c, &r); return; }
     if (!strcmp(vh_arg_mode, "model") && idx < nstruct) { gen_structured(&H, c, idx / CIPH_N, &r); VH_COUNT("structured_cases", 1); }
     else chist_gen(&H, c, &r, g);
     observe(&H);
